@@ -294,6 +294,10 @@ pub enum FenMut {
     DoubleSpace(u8),
     CastlingNoise(u8),
     EpNoise(u8),
+    /// a long run of one digit inside a rank (rank selector, digit, length): counters must not wrap
+    DigitRun(u8, u8, u8),
+    /// a field replaced by one multi-byte character
+    MultiByteField(u8, u8),
 }
 
 pub const CLOCK_EXTREMES: [&str; 14] = ["100", "101", "255", "256", "65535", "65536", "-1", "0", "+7", "007", "123456789012345678901234567890", "", "1e2", "९"];
@@ -393,6 +397,18 @@ pub fn apply_fen_mut(text: &str, m: &FenMut) -> String {
             8 => "Kk".into(),
             _ => "GCgc".into(),
         }),
+        FenMut::DigitRun(r, d, n) => with_field(0, &|f| {
+            let mut ranks: Vec<String> = f.split('/').map(|s| s.to_string()).collect();
+            let i = *r as usize % ranks.len();
+            let run: String = std::iter::repeat(char::from_digit(*d as u32 % 10, 10).unwrap()).take(*n as usize).collect();
+            if r % 2 == 0 {
+                ranks[i] = run;
+            } else {
+                ranks[i].push_str(&run);
+            }
+            ranks.join("/")
+        }),
+        FenMut::MultiByteField(i, c) => with_field(*i as usize % fields.len().max(1), &|_| ["\u{e9}", "\u{ff11}", "\u{1F600}", "\u{e9}\u{e9}", "a\u{e9}", "\u{e9}3"][*c as usize % 6].to_string()),
         FenMut::EpNoise(v) => with_field(3, &|f| match v % 8 {
             0 => "e3".into(),
             1 => "e6".into(),
@@ -424,6 +440,8 @@ pub fn arb_fen_mut() -> impl Strategy<Value = FenMut> {
         1 => (0u8..7).prop_map(FenMut::DoubleSpace),
         3 => (0u8..10).prop_map(FenMut::CastlingNoise),
         3 => (0u8..8).prop_map(FenMut::EpNoise),
+        2 => (0u8..8, 0u8..10, prop_oneof![1u8..12, 20u8..70, 28u8..30, 250u8..=255]).prop_map(|(r, d, n)| FenMut::DigitRun(r, d, n)),
+        2 => (0u8..6, 0u8..6).prop_map(|(i, c)| FenMut::MultiByteField(i, c)),
     ]
 }
 
@@ -511,6 +529,8 @@ pub enum Corruption {
     PlacementRankCount(u8, bool),
     PlacementEmptyRank(u8),
     PlacementEmpty,
+    /// a rank made of a long run of digits whose sum is far from eight (also sums that are 8 mod 256)
+    PlacementDigitRun(u8, u8),
     PlacementSemantic(Edit),
     // side
     SideBad(u8),
@@ -528,9 +548,9 @@ pub enum Corruption {
 
 pub const SIDE_BAD: [&str; 8] = ["", "W", "B", "x", "white", "wb", "-", "\u{e9}"];
 pub const CASTLING_BAD: [&str; 12] = ["", "x", "KK", "KQkqK", "KQha", "HAkq", "Kx", "--", "0", "kk", "hh", "Q-"];
-pub const EP_BAD: [&str; 12] = ["", "e", "e33", "3e", "i3", "e9", "e0", "--", "E3", "e3+", "x", "\u{e9}3"];
-pub const HALFMOVE_BAD: [&str; 12] = ["", "-1", "x", "101", "150", "255", "256", "1000", "1.5", "123456789012345678901234567890", "0x10", "१"];
-pub const FULLMOVE_BAD: [&str; 10] = ["", "-1", "x", "0", "65536", "100000", "1.5", "123456789012345678901234567890", "00", "१"];
+pub const EP_BAD: [&str; 14] = ["", "e", "e33", "3e", "i3", "e9", "e0", "--", "E3", "e3+", "x", "\u{e9}3", "\u{e9}", "e\u{e9}"];
+pub const HALFMOVE_BAD: [&str; 14] = ["", "-1", "x", "101", "150", "255", "256", "1000", "1.5", "123456789012345678901234567890", "0x10", "१", "356", "65636"];
+pub const FULLMOVE_BAD: [&str; 12] = ["", "-1", "x", "0", "65536", "100000", "1.5", "123456789012345678901234567890", "00", "१", "65537", "4294967297"];
 
 pub fn arb_corruption() -> impl Strategy<Value = Corruption> {
     prop_oneof![
@@ -539,12 +559,13 @@ pub fn arb_corruption() -> impl Strategy<Value = Corruption> {
         2 => (0u8..8, any::<bool>()).prop_map(|(r, l)| Corruption::PlacementRankCount(r, l)),
         1 => (0u8..8).prop_map(Corruption::PlacementEmptyRank),
         1 => Just(Corruption::PlacementEmpty),
+        1 => (0u8..8, 0u8..5).prop_map(|(r, k)| Corruption::PlacementDigitRun(r, k)),
         3 => arb_edit().prop_map(Corruption::PlacementSemantic),
         2 => (0u8..8).prop_map(Corruption::SideBad),
         4 => (0u8..40).prop_map(Corruption::CastlingBad),
         4 => (0u8..40).prop_map(Corruption::EpBad),
-        3 => (0u8..12).prop_map(Corruption::HalfmoveBad),
-        3 => (0u8..10).prop_map(Corruption::FullmoveBad),
+        3 => (0u8..14).prop_map(Corruption::HalfmoveBad),
+        3 => (0u8..12).prop_map(Corruption::FullmoveBad),
         2 => (1u8..6).prop_map(Corruption::Truncate),
         2 => (0u8..9).prop_map(Corruption::Append),
     ]
@@ -627,6 +648,19 @@ pub fn corrupt(p: &Pos, shredder: bool, c: &Corruption) -> Option<(String, Expec
         }
         Corruption::PlacementEmpty => {
             f[0] = String::new();
+            expect = Expect::Board;
+        }
+        Corruption::PlacementDigitRun(r, kind) => {
+            let mut ranks: Vec<String> = f[0].split('/').map(|s| s.to_string()).collect();
+            // 29 nines and a three = 264 = 8 mod 256; 32 eights = 256; 33 eights = 264; many ones
+            ranks[*r as usize % 8] = match kind % 5 {
+                0 => format!("{}3", "9".repeat(29)),
+                1 => "8".repeat(33),
+                2 => format!("{}8", "8".repeat(32)),
+                3 => "1".repeat(264),
+                _ => format!("{}44", "8".repeat(8192)),
+            };
+            f[0] = ranks.join("/");
             expect = Expect::Board;
         }
         Corruption::PlacementSemantic(e) => {
